@@ -111,6 +111,16 @@ def parseCfg (ws : List String) : Option Cfg :=
            postC := parseHooks (lookup kvs "postc" "-")
            rt := lookup kvs "rt" "0" == "1" }
 
+/-- pool-level timeouts of a managed configuration (`pt=wcr`, default none): what
+`Pool::get()` uses -/
+def parsePoolTimeouts (ws : List String) : Option Timeouts :=
+  match (lookup (ws.map kv) "pt" "nnn").toList with
+  | [w, c, r] =>
+    match parseTmo (String.ofList [w]), parseTmo (String.ofList [c]), parseTmo (String.ofList [r]) with
+    | some w, some c, some r => some { wait := w, create := c, recycle := r }
+    | _, _, _ => none
+  | _ => none
+
 def parseOutcome : String → Option Outcome
   | "run" => some .run
   | "ok" => some .ok
@@ -867,6 +877,8 @@ structure DState where
   rp : Option RR.Pool := none
   pw : Option PwDrv.PwState := none
   sm : Option SmDrv.SmState := none
+  /-- pool-level timeouts of the managed pool under test -/
+  pt : Timeouts := {}
 
 def handle (d : DState) (line : String) : DState × Option String :=
   let ws := (line.trimAscii.toString.splitOn " ").filter (· ≠ "")
@@ -928,9 +940,9 @@ def handle (d : DState) (line : String) : DState × Option String :=
                 else "build no_runtime"))
     | _, _, _ => (d, some "bad-op")
   | "cfg" :: "managed" :: rest =>
-    match parseCfg rest with
-    | some c => ({ managed := some (init c), unmanaged := none, sync := none }, some "cfg ok")
-    | none => (d, some "bad-cfg")
+    match parseCfg rest, parsePoolTimeouts rest with
+    | some c, some pt => ({ managed := some (init c), unmanaged := none, sync := none, pt := pt }, some "cfg ok")
+    | _, _ => (d, some "bad-cfg")
   | "cfg" :: "sync" :: rest =>
     -- the construction must have happened on a pool thread; otherwise there is no model run
     if rest.contains "create=b" then ({ managed := none, unmanaged := none, sync := some Sy.init }, some "cfg ok")
@@ -972,7 +984,9 @@ def handle (d : DState) (line : String) : DState × Option String :=
         | none => (d, some "reject")
       | none => (d, some "bad-op")
     | none =>
-    match d.managed, parseAction ws with
+    -- `start get d` is `Pool::get()`: a get with the pool-level timeouts
+    let act := if ws == ["start", "get", "d"] then some (Action.start (.get d.pt)) else parseAction ws
+    match d.managed, act with
     | some s, some a =>
       match step s a with
       | some s' =>
